@@ -30,10 +30,12 @@ ASSUMPTIONS = [
 ]
 NAN = float("nan")
 BOUNDS = {
-    "quick": {"cell_sequences": "1x3 over 9 (zone,value) letters x 3 chunkings", "independent_chunkings": "2x3: 8 x 8",
-              "schedule_deviations": 1},
-    "thorough": {"cell_sequences": "1x4 and 2x2 over 9 letters x all chunkings", "independent_chunkings": "2x4: 16 x 16",
-                 "schedule_deviations": 1},
+    "quick": {"cell_sequences": "1x3 over 9 (zone,value)/(zone,cat) letters; stats and crosstab-percentage under the 2-block "
+                                "chunkings, crosstab-count under all 3 chunkings", "independent_chunkings": "2x3: 8 x 8",
+              "schedule_deviations": 1, "schedule_caps": {"crosstab": 3000, "stats": 150}},
+    "thorough": {"cell_sequences": "stats: 1x3 all chunkings, 1x4 two-block chunkings; crosstab count: 1x3, 1x4, 2x2 all "
+                                   "chunkings; percentage: 1x3 all, 1x4 two-block", "independent_chunkings": "2x4: 16 x 16",
+                 "schedule_deviations": 1, "schedule_caps": {"crosstab": 20000, "stats": 4000}},
 }
 
 ZL = (1.0, 2.0, NAN)
@@ -395,10 +397,12 @@ def build(tier):
         sp.append(IndependentChunkSpace("2x3", "stats", {}, "default"))
         sp.append(IndependentChunkSpace("2x3", "crosstab", {"agg": "count"}, "count"))
     else:
+        sp.append(CellSeqSpace("stats", (1, 3), {}, "default", VL))
+        sp.append(CellSeqSpace("stats", (1, 4), {}, "default", VL, max_blocks=2))
         for shape in ((1, 3), (1, 4), (2, 2)):
-            sp.append(CellSeqSpace("stats", shape, {}, "default", VL))
             sp.append(CellSeqSpace("crosstab", shape, {"agg": "count"}, "count", CL))
-            sp.append(CellSeqSpace("crosstab", shape, {"agg": "percentage"}, "percentage", CL))
+        sp.append(CellSeqSpace("crosstab", (1, 3), {"agg": "percentage"}, "percentage", CL))
+        sp.append(CellSeqSpace("crosstab", (1, 4), {"agg": "percentage"}, "percentage", CL, max_blocks=2))
         sp.append(IndependentChunkSpace("2x4", "stats", {}, "default"))
         sp.append(IndependentChunkSpace("2x4", "crosstab", {"agg": "count"}, "count"))
         sp.append(IndependentChunkSpace("2x3", "crosstab", {"agg": "percentage"}, "percentage"))
